@@ -737,6 +737,8 @@ func init() {
 			`histogram_quantile(-1, h_bucket)`, `histogram_quantile(2, h_bucket)`, `histogram_quantile(NaN, h_bucket)`, `histogram_quantile(0.5, rate(h_bucket[1m]))`,
 			`histogram_quantile(0.5, sum by (le) (h_bucket))`, `histogram_quantile(0.5, a)`,
 			`clamp(a, scalar(b{l="0"}), 3)`, `clamp_min(a, scalar(b{l="0"}))`, `clamp_max(a, time() / 100)`, `clamp(a, -1, time() / 1000)`,
+			// the sign of a zero shows through a division
+			`1 / -a`, `1 / -a{l="1"} @ 60.000`, `1 / -scalar(a{l="0"})`, `1 / -(a * 0)`, `1 / abs(-a)`, `1 / -vector(0)`, `1 / ceil(-a / 10)`,
 			// a scalar argument computed by an aggregation that runs ahead behind its exchange buffer
 			`clamp_max(a, scalar(max(b)))`, `clamp_min(a, scalar(sum(b) / 2))`, `clamp(a, scalar(min(b)), scalar(max(a)))`} {
 			qs.Add(q, 1)
